@@ -476,6 +476,8 @@ pub fn run_history(out: &mut Out, kind: Kind, consts: &ConsensusConstants, arena
     let acc_ix: Vec<usize> = accepted.iter().flat_map(|(b, _)| b.iter().copied()).collect();
     let all_synth = acc_ix.iter().all(|i| arena[*i].synthetic);
     ev["all_synth"] = json!(all_synth);
+    ev["rejected_attempts"] = json!(attempts.len() - accepted.len());
+    ev["accepted_attempts"] = json!(accepted.len());
     match fin {
         Err(e) => {
             ev["res"] = json!(e);
@@ -533,7 +535,7 @@ pub fn run_history(out: &mut Out, kind: Kind, consts: &ConsensusConstants, arena
             ev["twin"] = match twin {
                 Ok((g2, s2, c2)) => {
                     let (_, sp2, _) = decode_generator(&g2);
-                    json!({"ran": true, "spends_equal": sp2 == spends, "sig_equal": s2.to_bytes() == sig.to_bytes(), "cost_equal": c2 == cost, "gen_equal": g2 == generator,
+                    json!({"ran": true, "spends_equal": sp2 == spends, "sig_equal": s2.to_bytes() == sig.to_bytes(), "cost_equal": c2 == cost, "gen_equal": g2 == generator, "cost": num(c2), "generator_len": g2.len(),
                            "rejected_between": attempts.len() - accepted.len()})
                 }
                 Err(e) => json!({"ran": false, "err": e}),
@@ -601,10 +603,10 @@ pub fn record(args: &Args) {
         // the arena of a history: the test bundles (shared) followed by this history's synthetic bundles
         base_arena.truncate(ntb);
         let mut steps = Vec::new();
-        let len = r.random_range(0..=maxlen);
+        let len = if h % 7 == 0 { r.random_range(0..3) } else { r.random_range(0..=maxlen) };
         let mut offered: Vec<usize> = Vec::new();
         let mut tb_used: HashSet<usize> = HashSet::new();
-        let style = r.random_range(0..4); // 0: truthful only, 1: mostly truthful, 2/3: frontier heavy
+        let style = r.random_range(0..5); // 0: truthful only, 1: mostly truthful, 2/3: frontier heavy, 4: mostly rejected (skip counter)
         for _ in 0..len {
             let bs = match r.random_range(0..10) { 0 => 0, 1 | 2 => 2, _ => 1 };
             let mut batch = Vec::new();
@@ -633,6 +635,7 @@ pub fn record(args: &Args) {
             let label = match style {
                 0 => "truthful",
                 1 => if r.random_range(0..4) == 0 { LABELS[r.random_range(0..LABELS.len())] } else { "truthful" },
+                4 => ["pre+1", "fit+1", "huge", "fit+1", "pre+1", "truthful", "zero"][r.random_range(0..7usize)],
                 _ => LABELS[r.random_range(0..LABELS.len())],
             };
             steps.push(Step { batch, label: label.to_string(), want: String::new() });
